@@ -39,7 +39,23 @@ type toolSpec struct {
 	Salt   string `json:"salt"`
 	Chunks int    `json:"chunks"` // number of stream chunks (1 for kind inv)
 	Cap    int    `json:"cap"`    // -1: array reader (synchronous), >=0: Pipe capacity with a producer goroutine
+	// Quiet: the tool's total output is empty (see empty_output_test.go).
+	// "blank": the invokable form returns "", the streaming form sends Chunks chunks that are all "";
+	// "nochunk": the invokable form returns "", the streaming form closes its stream without sending anything.
+	Quiet    string `json:"quiet,omitempty"`
+	QuietSel int    `json:"quiet_sel,omitempty"` // 0: on every call, 1: only on calls whose key hashes even
 }
+
+// quietFor: the kind of empty output this tool has for the call with this key ("" = ordinary output).
+func (s *toolSpec) quietFor(key string) string {
+	if s.Quiet == "" || (s.QuietSel == 1 && mon.HashStr("quiet#"+key)%2 != 0) {
+		return ""
+	}
+	return s.Quiet
+}
+
+// blankOut marks the typed output that the custom marshaller renders as "".
+var blankOut = Out{K: -1}
 
 func (s *toolSpec) typed() bool   { return s.Build != "hand" }
 func (s *toolSpec) usesOpt() bool { return s.Build == "hand" || s.Build == "inferopt" }
@@ -72,7 +88,12 @@ func handRender(o Out) string {
 }
 
 // customRender is the WithMarshalOutput form.
-func customRender(o Out) string { return o.R + "/" + strconv.Itoa(o.K) }
+func customRender(o Out) string {
+	if o == blankOut {
+		return ""
+	}
+	return o.R + "/" + strconv.Itoa(o.K)
+}
 
 // parseCustom is the WithUnmarshalArguments form "a:n".
 func parseCustom(s string) (In, error) {
@@ -88,6 +109,9 @@ func parseCustom(s string) (In, error) {
 }
 
 func unknownAnswer(name, raw string) string {
+	if strings.HasPrefix(name, quietGhost) {
+		return "" // the handler's answer for this call is the empty string
+	}
 	return "unk:" + mon.H8("unknown#"+name+"#"+raw)
 }
 
@@ -144,6 +168,9 @@ func (c *core) typedInvoke(ctx context.Context, in In, opts ...tool.Option) (Out
 	case actPanic:
 		panic("forced tool panic: " + key)
 	}
+	if c.sp.quietFor(key) != "" {
+		return blankOut, nil // only generated with the custom marshaller, which renders it as ""
+	}
 	// an invokable tool answers with the concatenation of its chunks; typed
 	// invokable tools have exactly one
 	return c.sp.outputs(key, tagOf(opts), in.N)[0], nil
@@ -162,7 +189,16 @@ func (c *core) typedStream(ctx context.Context, in In, opts ...tool.Option) (*sc
 	case actPanic:
 		panic("forced tool panic: " + key)
 	}
-	return emit(r, slot, act, c.sp.outputs(key, tagOf(opts), in.N), c.sp.Cap, ferr), nil
+	outs := c.sp.outputs(key, tagOf(opts), in.N)
+	switch c.sp.quietFor(key) {
+	case "blank":
+		for j := range outs {
+			outs[j] = blankOut
+		}
+	case "nochunk":
+		outs = nil
+	}
+	return emit(r, slot, act, outs, c.sp.Cap, ferr), nil
 }
 
 // handTool: written against the component interfaces directly.
@@ -177,6 +213,14 @@ func (h *handTool) chunks(key, tag string) []string {
 	ss := make([]string, len(os))
 	for i, o := range os {
 		ss[i] = handRender(o)
+	}
+	switch h.sp.quietFor(key) {
+	case "blank":
+		for i := range ss {
+			ss[i] = ""
+		}
+	case "nochunk":
+		ss = nil
 	}
 	return ss
 }
